@@ -2,6 +2,7 @@ SPECIFICATION Spec
 CONSTANTS
   Machine = "dumps"
   CrashPoints = FALSE
+  RollFaults = FALSE
   MaxCount = 3
   Limit = 4
   MaxWrite = 6
